@@ -13,15 +13,15 @@ PROP = 'C12'
 MANIFEST = dict(
     text="Symbolic check of the real dispatchers' middleware chain and error-handler fold: stacks of 0..2 (quick) / 0..3 (thorough) middlewares over {pass-through, short-circuit, request-rewriting, response-rewriting} "
          "x handler tables {none, generic, per-code, both, two per key, generic handler replacing the error by one with another code, per-code handler replacing the error} x request kinds "
-         "{success, unknown method, params do not bind, protocol error, arbitrary exception in the method, failure outside the method (view constructor -> internal error), notification (ok / failing), 2-element batch, rejected document, rejected batch} x sync / async. "
+         "{success, unknown method, params do not bind, protocol error, arbitrary exception in the method, failure outside the method (view constructor -> internal error), notification (ok / failing), 2-element batch of calls, batch of notifications only, mixed batch, rejected document, rejected batch} x sync / async. "
          "The raised error code, the TABLE KEYS and the replacement code are z3 integers, so the solver decides which per-code list fires (incl. replacement code == another key). "
          "Oracle: event log == log computed by a reference interpreter of the statement; the document sent == what the outermost middleware returned; handlers silent on success and on rejected documents; same context object everywhere.",
     ref='5 C12',
     note="Middlewares / handlers are well-behaved recorders (they do not raise). Handler tables are built with a dict comprehension (a dict literal with symbolic keys would be realised by CrossHair).",
 )
 BOUNDS = {
-    'quick': {'stacks': 'all 21 stacks of length 0..2', 'tables': '7 kinds, keys symbolic', 'requests': '11 kinds', 'dispatchers': 'sync, async'},
-    'thorough': {'stacks': 'all 85 stacks of length 0..3', 'tables': '7 kinds', 'requests': '11 kinds', 'dispatchers': 'sync, async'},
+    'quick': {'stacks': 'all 21 stacks of length 0..2', 'tables': '7 kinds, keys symbolic', 'requests': '13 kinds', 'dispatchers': 'sync, async'},
+    'thorough': {'stacks': 'all 85 stacks of length 0..3', 'tables': '7 kinds', 'requests': '13 kinds', 'dispatchers': 'sync, async'},
 }
 STUBS = ['S1', 'S4', 'S5', 'S8', 'S13']
 OUTSIDE = ['middlewares / handlers that raise', 'stacks deeper than the bound']
@@ -30,7 +30,7 @@ BUDGET = {'quick': 40.0, 'thorough': 120.0}
 
 MW_KINDS = ('P', 'S', 'Q', 'W')
 TABLES = ('none', 'generic', 'percode', 'both', 'two', 'replace_generic', 'replace_percode')
-REQS = ('ok', 'unknown', 'nobind', 'perr', 'boom', 'internal', 'notif_ok', 'notif_perr', 'batch', 'rejected', 'rejected_batch')
+REQS = ('ok', 'unknown', 'nobind', 'perr', 'boom', 'internal', 'notif_ok', 'notif_perr', 'batch', 'notif_batch', 'mixed_batch', 'rejected', 'rejected_batch')
 
 
 def setup():
@@ -201,6 +201,12 @@ def h_chain(ob):
             env.assume(rid2 != rid)
             elems = [('ok', rid), ('perr', rid2)]
             doc = [el('ok', rid), el('perr', rid2)]
+        elif req == 'notif_batch':
+            elems = [('ok', None), ('perr', None)]
+            doc = [el('ok', None), el('perr', None)]
+        elif req == 'mixed_batch':
+            elems = [('perr', None), ('ok', rid)]
+            doc = [el('perr', None), el('ok', rid)]
         elif req == 'rejected':
             elems, doc = [], env.int('x')
         else:
@@ -277,7 +283,7 @@ def h_chain(ob):
             return ['nothing']
         if out is None:
             raise Violation('response-expected-but-nothing-sent', want_resps)
-        docs = out[0] if req == 'batch' else [out[0]]
+        docs = out[0] if req in ('batch', 'notif_batch', 'mixed_batch') else [out[0]]
         if not isinstance(docs, list) or len(docs) != len(want_resps):
             raise Violation('sent-shape', (out[0], len(want_resps)))
         for d, (id_, (tag, val)) in zip(docs, want_resps):
